@@ -393,8 +393,102 @@ func (c *fileCtx) stmt(s ast.Stmt) []ast.Stmt {
 		c.clauses(x.Body)
 	case *ast.SelectStmt:
 		return c.selectStmt(x)
+	case *ast.ExprStmt:
+		if pre := c.hoistLoad(x); pre != nil {
+			return pre
+		}
 	}
 	return []ast.Stmt{s}
+}
+
+// hoistLoad splits `a.Store(b.Load() + 1)` / `a.Add(b.Load())` - one method call whose arguments contain exactly one
+// further call, a niladic Load() on a plain selector chain - into `tmp := b.Load(); <yield>; a.Store(tmp + 1)`. The two
+// atomic operations of such a statement are separate steps of the machine; evaluation order is unchanged (the
+// receiver chain of the outer call has no side effects and the Load is the only other call).
+func (c *fileCtx) hoistLoad(es *ast.ExprStmt) []ast.Stmt {
+	outer, ok := es.X.(*ast.CallExpr)
+	if !ok {
+		return nil
+	}
+	sel, ok := outer.Fun.(*ast.SelectorExpr)
+	if !ok || !pureChain(sel.X) {
+		return nil
+	}
+	switch sel.Sel.Name {
+	case "Store", "Add", "Swap", "CompareAndSwap":
+	default:
+		return nil
+	}
+	var calls []*ast.CallExpr
+	bad := false
+	for _, a := range outer.Args {
+		ast.Inspect(a, func(n ast.Node) bool {
+			switch v := n.(type) {
+			case *ast.CallExpr:
+				calls = append(calls, v)
+			case *ast.FuncLit, *ast.UnaryExpr:
+				if u, isU := v.(*ast.UnaryExpr); !isU || u.Op == token.ARROW {
+					bad = true
+				}
+			}
+			return true
+		})
+	}
+	if bad || len(calls) != 1 {
+		return nil
+	}
+	inner := calls[0]
+	isel, ok := inner.Fun.(*ast.SelectorExpr)
+	if !ok || isel.Sel.Name != "Load" || len(inner.Args) != 0 || !pureChain(isel.X) {
+		return nil
+	}
+	tmp := ast.NewIdent(fmt.Sprintf("__ld%d", c.nYield))
+	def := &ast.AssignStmt{Lhs: []ast.Expr{tmp}, Tok: token.DEFINE, Rhs: []ast.Expr{&ast.CallExpr{Fun: inner.Fun}}}
+	// replace the inner call by the temporary
+	replaced := false
+	for i, a := range outer.Args {
+		outer.Args[i] = replaceExpr(a, inner, tmp, &replaced)
+	}
+	if !replaced {
+		return nil
+	}
+	return []ast.Stmt{def, c.yield(), es}
+}
+
+func pureChain(e ast.Expr) bool {
+	switch v := e.(type) {
+	case *ast.Ident:
+		return true
+	case *ast.SelectorExpr:
+		return pureChain(v.X)
+	case *ast.ParenExpr:
+		return pureChain(v.X)
+	case *ast.StarExpr:
+		return pureChain(v.X)
+	}
+	return false
+}
+
+// replaceExpr returns e with the node old replaced by repl (binary, paren, unary and call-argument positions).
+func replaceExpr(e ast.Expr, old *ast.CallExpr, repl ast.Expr, done *bool) ast.Expr {
+	if ce, ok := e.(*ast.CallExpr); ok && ce == old {
+		*done = true
+		return repl
+	}
+	switch v := e.(type) {
+	case *ast.BinaryExpr:
+		v.X = replaceExpr(v.X, old, repl, done)
+		v.Y = replaceExpr(v.Y, old, repl, done)
+	case *ast.ParenExpr:
+		v.X = replaceExpr(v.X, old, repl, done)
+	case *ast.UnaryExpr:
+		v.X = replaceExpr(v.X, old, repl, done)
+	case *ast.CallExpr: // conversions such as int64(x.Load())
+		for i, a := range v.Args {
+			v.Args[i] = replaceExpr(a, old, repl, done)
+		}
+	}
+	return e
 }
 
 func (c *fileCtx) clauses(b *ast.BlockStmt) {
